@@ -82,7 +82,7 @@ fn default_runs(prop: &str, tier: &str, profile: &str) -> u64 {
                 300_000
             }
         }
-        ("quick", true) => 40_000,
+        ("quick", true) => 25_000,
         (_, false) => 30_000_000,
         (_, true) => 2_000_000,
     }
